@@ -14,6 +14,9 @@ This is a value-numbering style analysis: nothing is executed, lengths stay symb
 from .poly import Poly, fact_cmp, NEG, prove, refute
 from .tys import TyEnv, tstr, pointee, adt_args, is_ga, strip_wrappers
 
+ITER_ADAPTORS = {"enumerate", "zip", "map", "rev", "skip", "take", "step_by", "chain", "filter", "peekable", "skip_while",
+                 "take_while", "cloned", "copied", "by_ref", "inspect", "fuse", "cycle", "scan", "flat_map", "flatten", "filter_map"}
+
 INT_TYS = {"usize", "isize", "u8", "u16", "u32", "u64", "u128", "i8", "i16", "i32", "i64", "i128"}
 
 
@@ -132,7 +135,10 @@ class Analysis:
                 pt = pointee(ty) if ty else None
                 if v[0] == "P":
                     if not v[2].t:
-                        base, path = v[1], ()
+                        if v[1][0] == "field":
+                            base, path = v[1][1], v[1][2]
+                        else:
+                            base, path = v[1], ()
                     else:
                         base, path = ("off", v[1], v[2]), ()
                 else:
@@ -166,7 +172,11 @@ class Analysis:
                 v = st.mem[k2]
                 ok = True
                 for f in path[i:]:
-                    if v[0] == "A" and isinstance(f, int) and f < len(v[2]):
+                    if v[0] == "O" and isinstance(f, tuple) and f[0] == "v":
+                        continue  # downcast of a maybe-Some value: payload below
+                    if v[0] == "O" and f == 0:
+                        v = v[1]
+                    elif v[0] == "A" and isinstance(f, int) and f < len(v[2]):
                         v = v[2][f]
                     elif v[0] == "A" and isinstance(f, tuple) and f[0] == "v":
                         pass  # downcast of a known variant
@@ -457,6 +467,9 @@ class Analysis:
             return args[i] if len(args) > i and args[i][0] == "P" else None
 
         m = self.models.get(cs.key) if cs.key else None
+        if m is None and res != fn:
+            from .models import RES_MODELS
+            m = RES_MODELS.get(res)
         if m is not None:
             r = m(self, st, cs)
             if r is not None:
@@ -533,6 +546,31 @@ class Analysis:
                 ip = self.as_poly(idx)
                 if ip is not None:
                     return ("P", p[1], p[2] + ip * es, None)
+        if fn in ("core::slice::<impl [T]>::iter", "core::slice::<impl [T]>::iter_mut"):
+            p = ptr()
+            if p:
+                return ("V", "iter", "slice", p, fn.endswith("iter_mut"))
+        if fn.startswith("core::iter::Iterator::") and fn.split("::")[-1] in ITER_ADAPTORS:
+            return ("V", "iter", fn.split("::")[-1]) + tuple(args)
+        if fn == "core::iter::IntoIterator::into_iter":
+            x = args[0]
+            if x[0] == "V" and len(x) > 1 and x[1] == "iter":
+                return x
+            if cs.key in ("<&GenericArray<$0,$1> as core::iter::IntoIterator>::into_iter", "<&mut GenericArray<$0,$1> as core::iter::IntoIterator>::into_iter") and x[0] == "P":
+                st_ = targs[0]["t"] if targs and targs[0].get("k") == "ref" else None
+                if st_ is not None and is_ga(st_):
+                    return ("V", "iter", "slice", ("P", x[1], x[2], te.length(adt_args(st_)[1])), cs.key.startswith("<&mut"))
+            if cs.key == "<GenericArray<$0,$1> as core::iter::IntoIterator>::into_iter":
+                return ("V", "iter", "ga", x)
+            return ("V", "iter", "into_iter", x)
+        if fn in ("core::iter::Iterator::next", "core::iter::DoubleEndedIterator::next_back"):
+            p = ptr()
+            if p and not p[2].t:
+                itv = self.read_cell(st, p[1], (), None)
+                el = self.iter_elem(itv, (cs.bb,))
+                if el is not None:
+                    cs.no_effects = True
+                    return ("O", el, ("next", cs.bb))
         if fn in ("core::ptr::read", "core::ptr::read_volatile", "core::ptr::read_unaligned"):
             p = ptr()
             if p:
@@ -563,6 +601,29 @@ class Analysis:
             p = ptr()
             inner = self.read_cell(st, p[1], (), None) if p and not p[2].t else args[0]
             return ("B", ("not", ("is_some", inner)))
+        return None
+
+    def iter_elem(self, it, tag):
+        """Abstract element produced by polling a std iterator term (None if unknown)."""
+        if isinstance(it, tuple) and it and it[0] == "P" and it[3] is not None:
+            # a slice reference used as IntoIterator
+            return ("P", it[1], it[2] + Poly.atom(("elemoff", tag)), None)
+        if not (isinstance(it, tuple) and len(it) >= 3 and it[0] == "V" and it[1] == "iter"):
+            return None
+        kind = it[2]
+        if kind == "slice":
+            p = it[3]
+            return ("P", p[1], p[2] + Poly.atom(("elemoff", tag)), None)
+        if kind == "enumerate":
+            inner = self.iter_elem(it[3], tag + (0,))
+            return None if inner is None else ("A", "tuple", (("I", Poly.atom(("enum_idx", tag))), inner))
+        if kind == "zip":
+            a, b = self.iter_elem(it[3], tag + (0,)), self.iter_elem(it[4], tag + (1,))
+            if a is None or b is None:
+                return None
+            return ("A", "tuple", (a, b))
+        if kind in ("rev", "skip", "take", "step_by", "by_ref", "fuse", "peekable"):
+            return self.iter_elem(it[3], tag + (0,))
         return None
 
     def range_of(self, v, ln):
@@ -598,6 +659,8 @@ class Analysis:
             from .models import PURE_KEYS
             if cs.key in PURE_KEYS:
                 return True
+        if cs.res == "<&mut I as core::iter::ExactSizeIterator>::len":
+            return True
         if fn.startswith("core::slice::<impl [T]>::swap"):
             return False
         if fn in ("core::ops::Deref::deref",):
@@ -616,7 +679,7 @@ class Analysis:
                 self.bases_in(x, out, depth + 1)
 
     def apply_call_effects(self, st, cs, site):
-        if self.is_pure(cs):
+        if self.is_pure(cs) or getattr(cs, "no_effects", False):
             return
         fn = cs.fn
         if fn == "core::ptr::write" or fn == "core::mem::MaybeUninit::<T>::write":
@@ -825,12 +888,19 @@ class Analysis:
         keep = set(common)
         for c in cands:
             g = (c[1], c[2])
-            if (c in fa or prove(g, pa)) and (c in fb or prove(g, pb)):
+            if (c in fa or prove(g, pa, 120)) and (c in fb or prove(g, pb, 120)):
                 keep.add(c)
         return frozenset(keep)
 
     def phi_value(self, bb, k, va, vb, ty):
         tag = ("phi", bb, k)
+        if va is not None and vb is not None and va[0] == "A" and vb[0] == "A" and va[1] == vb[1] and len(va[2]) == len(vb[2]):
+            comps = []
+            for i, (x, y) in enumerate(zip(va[2], vb[2])):
+                comps.append(x if x == y else self.phi_value(bb, (k, i), x, y, None))
+            return ("A", va[1], tuple(comps))
+        if va is not None and vb is not None and va[0] == "O" and vb[0] == "O":
+            return ("O", va[1] if va[1] == vb[1] else self.phi_value(bb, (k, "payload"), va[1], vb[1], None), tag)
         kinds = {v[0] for v in (va, vb) if v is not None}
         if va is None or vb is None:
             # cell defined on one side only: opaque (typed if we can)
